@@ -179,9 +179,12 @@ theorem repeatable (sem : Nat → List Int → Int) (p : Prog) (hs : safe p = tr
     simp [inputAfter, h1, h2, InVal.obj]
   rw [this]
 
-/-- History independence in this model: a call in between with any other wavefront `w` (whose
-outcome is discarded) does not change what the call on `v` returns, because the only state a
-program can reach is its argument. -/
+/-- History independence, as far as this model can state it: a call in between with any other
+wavefront `w` (outcome discarded) does not change what the call on `v` returns.  `_partial`: the
+statement is immediate here because the only state an `Effects.Prog` can reach is its argument;
+state kept *inside the element* between calls (instance caches, cached mirror surface, tip-tilt
+actuators of the modulated pyramid) is outside the instruction set. That part of the clause is
+covered behaviourally only (harness clauses `history`, `fresh-element`) and by C05's cache model. -/
 theorem history_independent_partial (sem : Nat → List Int → Int) (p : Prog) (hs : safe p = true) (v w : InVal) :
     (let _ := call sem p w; call sem p (inputAfter (call sem p v))) = call sem p v :=
   repeatable sem p hs v
